@@ -548,8 +548,10 @@ func RunWorker[C any](w World[C]) {
 		rp := filepath.Join(replayDir, fmt.Sprintf("%s-%d-%s.json", v.Property, seed, hex.EncodeToString(h[:])[:8]))
 		rf := &ReplayFile{Property: v.Property, World: w.Name(), Seed: seed, Run: i, Tier: tier, Case: cj, Violation: minV, Minimisation: minStats, Known: knownID}
 		rb, _ := json.MarshalIndent(rf, "", " ")
-		if err := os.WriteFile(rp, rb, 0o644); err != nil {
-			panic(err)
+		if knownID == "" { // hits of listed findings are counted, not written out again
+			if err := os.WriteFile(rp, rb, 0o644); err != nil {
+				panic(err)
+			}
 		}
 		em.emit(&line{Type: "violation", Run: i, Seed: seed, Violation: minV, Replay: rp, Known: knownID})
 		if knownID == "" {
